@@ -209,6 +209,14 @@ func (ut UnitType) findByAlias(alias string) *Unit {
 // sniffUnit simpifies the input alias and returns the unit associated with the
 // specified alias. It returns nil if the unit with such alias is not found.
 func (ut UnitType) sniffUnit(unit string) *Unit {
+	// The canonical name is what pprof prints and what a report hands back as its
+	// target unit (e.g. "u*GCU" selected for -unit=minimum). It is matched exactly:
+	// "m*GCU" and "M*GCU" differ only in case.
+	for _, u := range ut.Units {
+		if unit == u.CanonicalName {
+			return &u
+		}
+	}
 	unit = strings.ToLower(unit)
 	// Try the exact alias first: "μs" is longer than two bytes but is not a plural.
 	if u := ut.findByAlias(unit); u != nil {
